@@ -150,6 +150,7 @@ type c16World struct {
 	hd      interface {
 		Create(context.Context, event.CreateEvent, workqueue.TypedRateLimitingInterface[reconcile.Request])
 		Update(context.Context, event.UpdateEvent, workqueue.TypedRateLimitingInterface[reconcile.Request])
+		Delete(context.Context, event.DeleteEvent, workqueue.TypedRateLimitingInterface[reconcile.Request])
 	}
 	q        workqueue.TypedRateLimitingInterface[reconcile.Request]
 	failUpd  map[string]bool
@@ -162,6 +163,43 @@ type c16World struct {
 	// jobs that were pending + annotated "passed" when the controller restarted and have not been
 	// re-arbitrated since: the new arbitrator holds them in its waiting collection again
 	stale map[int]bool
+	// the informer side of the arbitrator's own writes: while a round runs, every successful write of a job object
+	// (annotation Update, Failed status) is recorded; the Update event is delivered through the real arbitrationHandler
+	// either before the arbitrator's next List of jobs (eager) or after the round
+	inRound, eager, flushing bool
+	written                  []int // job ids written in this round and not echoed yet
+	echoed                   []int // job ids echoed in this round, in order
+}
+
+func (w *c16World) noteWrite(obj client.Object) {
+	if _, ok := obj.(*v1alpha1.PodMigrationJob); !ok || !w.inRound {
+		return
+	}
+	var id int
+	fmt.Sscanf(obj.GetName(), "j%d", &id)
+	w.written = append(w.written, id)
+}
+
+// echo delivers an Update event for job id with ObjectNew = the object the API holds now (as the informer would)
+func (w *c16World) echo(id int) {
+	obj := &v1alpha1.PodMigrationJob{}
+	if err := w.c.Get(context.TODO(), types.NamespacedName{Name: c16JobName(id)}, obj); err != nil {
+		return // deleted meanwhile: the informer delivers no Update
+	}
+	w.hd.Update(context.TODO(), event.UpdateEvent{ObjectOld: obj.DeepCopy(), ObjectNew: obj}, w.q)
+}
+
+func (w *c16World) flushWrites() {
+	if w.flushing {
+		return
+	}
+	w.flushing = true
+	for _, id := range w.written {
+		w.echo(id)
+		w.echoed = append(w.echoed, id)
+	}
+	w.written = w.written[:0]
+	w.flushing = false
 }
 
 func (w *c16World) skipped(code int) bool {
@@ -258,7 +296,24 @@ func c16NewWorld(h *vHarness, cfg c16Cfg, badStr string, replicas map[int]int) *
 				if _, ok := obj.(*v1alpha1.PodMigrationJob); ok && w.failUpd[obj.GetName()] {
 					return fmt.Errorf("verif: scripted update failure")
 				}
-				return c.Update(ctx, obj, opts...)
+				err := c.Update(ctx, obj, opts...)
+				if err == nil {
+					w.noteWrite(obj)
+				}
+				return err
+			},
+			SubResourceUpdate: func(ctx context.Context, c client.Client, sub string, obj client.Object, opts ...client.SubResourceUpdateOption) error {
+				err := c.SubResource(sub).Update(ctx, obj, opts...)
+				if err == nil {
+					w.noteWrite(obj)
+				}
+				return err
+			},
+			List: func(ctx context.Context, c client.WithWatch, list client.ObjectList, opts ...client.ListOption) error {
+				if _, ok := list.(*v1alpha1.PodMigrationJobList); ok && w.inRound && w.eager {
+					w.flushWrites() // the events of the writes so far arrive before the arbitrator looks at the jobs again
+				}
+				return c.List(ctx, list, opts...)
 			},
 		}).Build()
 	w.newArb()
@@ -509,6 +564,13 @@ func (w *c16World) counts(v []c16JobView, live func(c16JobView) bool, only func(
 	return c
 }
 
+func c16Min(a, b int) int {
+	if a < b {
+		return a
+	}
+	return b
+}
+
 func c16Max(a, b int) int {
 	if a > b {
 		return a
@@ -691,7 +753,7 @@ func TestVerifC16Arb(t *testing.T) {
 		if r == nil {
 			continue
 		}
-		c16ArbCase(h, r, idx%3 == 1, nil)
+		c16ArbCase(h, r, idx%3 == 1, nil, false)
 		h.End()
 	}
 	// exhaustive small-scope matrix of the duplicate rule: every PodRef shape x every job state, on a fixed cluster
@@ -702,7 +764,19 @@ func TestVerifC16Arb(t *testing.T) {
 		if r == nil {
 			continue
 		}
-		c16ArbCase(h, r, false, &c16Forced{shape: m % 5, state: m / 5})
+		c16ArbCase(h, r, false, &c16Forced{shape: m % 5, state: m / 5}, false)
+		h.End()
+	}
+	// handler stream: tight limits, several waiting jobs of phase "" / Pending on distinct pods, every event through the
+	// real arbitrationHandler (Create, the echo of the arbitrator's own writes, resyncs, phase changes, Delete)
+	nh := h.N(120, 1500)
+	for k := 0; k < nh; k++ {
+		r := h.Begin(n + 5*4 + k)
+		if r == nil {
+			continue
+		}
+		h.Tag("stream:handler")
+		c16ArbCase(h, r, false, nil, true)
 		h.End()
 	}
 	h.Close("one case = a cluster (5-10 pods over 3 nodes x 2 namespaces x 3 workloads with replicas in {1,3,5,8,12,20}; pod states: Ready / not Ready, terminating " +
@@ -711,7 +785,12 @@ func TestVerifC16Arb(t *testing.T) {
 		"dangling pod / nil PodRef; PodRef shape of a directly created job: UID + namespace/name 1/2, namespace/name only 1/5, UID only 1/10, stale UID + right name 3/20, " +
 		"UID of one pod + name of another 1/20 (makes WF false)), then 6-14 ops: job created by somebody else with a partial PodRef (1/20), create-through-Filter (1/3 aimed at " +
 		"a pod that already has an open job), arbitration round (1/6 with a failing Update), phase changes through the event handler, pod deletion, " +
-		"readiness flips, pod becomes terminating / changes phase, controller restart (new arbitrator, Create event per job). Every third case is the headroom stream: one workload of " +
+		"readiness flips, pod becomes terminating / changes phase, controller restart (new arbitrator, Create event per job), informer resync (Update event for every job), " +
+		"job deletion (API delete + Delete event), one-step phase moves of arbitrated jobs (\"\" -> Pending -> Running -> ended). Every job creation reaches the arbitrator as a Create event through the real arbitrationHandler and every " +
+		"write the arbitrator makes during a round (passed annotation, Failed status) is echoed back as an Update event with the object the fake client holds, either before the " +
+		"arbitrator's next job List (op roundx, 1/2) or after the round (op upd). Handler stream (120 / 1500 extra cases): 5-8 Ready pods of one workload (20 or 40 replicas) in one " +
+		"namespace on 1-2 nodes, exactly one or two of the global / per-node / per-namespace / per-workload limits set to 1-2, 3-6 waiting jobs of phase \"\" (3/4) or Pending created up front, " +
+		"then rounds / resyncs / phase moves (\"\" -> Pending -> Running -> terminal) / deletions. Every third case is the headroom stream: one workload of " +
 		"4-8 replicas, small maxUnavailable, 1-3 replicas unavailable in the different ways, waiting jobs on the others. " +
 		"Non-trivial = some round both admitted a job and left one waiting")
 }
@@ -742,6 +821,11 @@ func (w *c16World) getPod(id int) *corev1.Pod {
 
 // direct creation of a job object; kind 0 running, 1 pending+passed, 2 finished, 3 waiting
 func (w *c16World) createJob(r *vRand, id, pod, ns, kind, shape int) {
+	w.createJobPhase(r, id, pod, ns, kind, shape, -1)
+}
+
+// forcePhase >= 0 fixes the phase of a waiting job (kind 3): 0 "" (what a plugin-created job has), 1 Pending
+func (w *c16World) createJobPhase(r *vRand, id, pod, ns, kind, shape, forcePhase int) {
 	ctx := context.TODO()
 	js := &c16JobS{id: id, pod: pod, ns: ns, uid: pod}
 	if pod == 0 || w.pods[pod] == nil {
@@ -783,6 +867,9 @@ func (w *c16World) createJob(r *vRand, id, pod, ns, kind, shape int) {
 		phase = r.Range(3, 5)
 	default:
 		phase, waiting = r.Intn(2), true
+		if forcePhase >= 0 {
+			phase = forcePhase
+		}
 	}
 	if passed {
 		j.Annotations = map[string]string{AnnotationPassedArbitration: "true"}
@@ -798,7 +885,7 @@ func (w *c16World) createJob(r *vRand, id, pod, ns, kind, shape int) {
 		w.a.filter.markJobPassedArbitration(j.UID)
 	}
 	if waiting {
-		w.a.AddPodMigrationJob(j)
+		w.hd.Create(ctx, event.CreateEvent{Object: j}, w.q) // the informer's Create event -> AddPodMigrationJob
 	}
 	w.h.Op("job %d %d %d %d %d %d %d %d", id, pod, ns, phase, vB(passed), vB(passed), vB(waiting), js.uid)
 }
@@ -806,7 +893,7 @@ func (w *c16World) createJob(r *vRand, id, pod, ns, kind, shape int) {
 // c16Forced fixes cluster, configuration and op sequence of a case (the PodRef shape x job state matrix)
 type c16Forced struct{ shape, state int }
 
-func c16ArbCase(h *vHarness, r *vRand, headroom bool, fx *c16Forced) {
+func c16ArbCase(h *vHarness, r *vRand, headroom bool, fx *c16Forced, hs bool) {
 	pickLim := func() int {
 		switch r.Intn(7) {
 		case 0:
@@ -876,6 +963,22 @@ func c16ArbCase(h *vHarness, r *vRand, headroom bool, fx *c16Forced) {
 			cfg.skip = nil
 		}
 		cfg.skipCER = false
+	}
+	if hs {
+		cfg = c16Cfg{mg: -1, mn: -1, ms: -1, mm: 10, mu: 10} // per-workload limits far from binding unless chosen below
+		for k, n := 0, r.Range(1, 2); k < n; k++ {
+			switch r.Intn(4) {
+			case 0:
+				cfg.mg = r.Range(1, 2)
+			case 1:
+				cfg.mn = r.Range(1, 2)
+			case 2:
+				cfg.ms = r.Range(1, 2)
+			default:
+				cfg.mm = r.Range(1, 2)
+			}
+		}
+		replicas = map[int]int{1: 20, 2: int(r.Pick([]int64{20, 40})), 3: 20}
 	}
 	if fx != nil {
 		cfg = c16Cfg{mg: -1, mn: 1, ms: -1, mm: -1, mu: -1}
@@ -957,6 +1060,17 @@ func c16ArbCase(h *vHarness, r *vRand, headroom bool, fx *c16Forced) {
 		}
 		w.createJob(r, nextJob, 1, 1, fx.state, fx.shape)
 		nextJob++
+	} else if hs {
+		np = r.Range(5, 8)
+		nodes := r.Range(1, 2)
+		for id := 1; id <= np; id++ {
+			w.createPod(&c16PodS{id: id, node: r.Range(1, nodes), ns: 1, wl: 2, ready: true})
+		}
+		perm := r.Perm(np)
+		for k, nj := 0, r.Range(3, 6); k < nj && k < np; k++ {
+			w.createJobPhase(r, nextJob, perm[k]+1, 1, 3, c16RefFull, vB(r.Chance(1, 4)))
+			nextJob++
+		}
 	} else if headroom {
 		np = r.Range(4, 8)
 		nun := r.Range(1, 3)
@@ -1027,7 +1141,10 @@ func c16ArbCase(h *vHarness, r *vRand, headroom bool, fx *c16Forced) {
 	admittedAndWaiting := false
 	fxK, fxPod := []int{6, 0, 7, 6}, []int{1, 2, 0, 3}
 	for s, steps := 0, r.Range(6, 14); s < steps; s++ {
-		k := r.Intn(20)
+		k := r.Intn(23)
+		if hs { // mostly rounds and the events around them
+			k = int(r.Pick([]int64{0, 3, 3, 7, 7, 7, 7, 7, 7, 13, 13, 16, 17, 20, 20, 21, 22, 22}))
+		}
 		if fx != nil {
 			if s >= len(fxK) {
 				break
@@ -1105,7 +1222,7 @@ func c16ArbCase(h *vHarness, r *vRand, headroom bool, fx *c16Forced) {
 				if err := w.c.Create(ctx, j); err != nil {
 					panic(err)
 				}
-				w.a.AddPodMigrationJob(j)
+				w.hd.Create(ctx, event.CreateEvent{Object: j}, w.q)
 			}
 		case k < 13: // arbitration round
 			before := w.view()
@@ -1120,12 +1237,25 @@ func c16ArbCase(h *vHarness, r *vRand, headroom bool, fx *c16Forced) {
 				}
 			}
 			w.order = w.order[:0]
-			if h.Guard(func() { w.a.doOnceArbitrate() }) {
+			// the informer echoes the arbitrator's own writes: before its next look at the jobs (eager) or after the round
+			w.eager = r.Bool()
+			w.written, w.echoed = w.written[:0], w.echoed[:0]
+			w.inRound = true
+			panicked := h.Guard(func() { w.a.doOnceArbitrate() })
+			w.inRound = false
+			if panicked {
+				h.Op("round 0 0")
 				h.Obs("panic")
 				h.Fail("C16:panic", "doOnceArbitrate panicked")
 				return
 			}
-			op := fmt.Sprintf("round %d", len(fails))
+			opName := "round"
+			if w.eager {
+				opName = "roundx"
+				w.flushWrites() // whatever was written after the arbitrator's last job List
+				h.Tag(fmt.Sprintf("round:eager-echoes=%d", c16Min(len(w.echoed), 3)))
+			}
+			op := fmt.Sprintf("%s %d", opName, len(fails))
 			for _, f := range fails {
 				op += fmt.Sprintf(" %d", f)
 			}
@@ -1147,6 +1277,25 @@ func c16ArbCase(h *vHarness, r *vRand, headroom bool, fx *c16Forced) {
 				w.oracleRound(before, after)
 			} else {
 				h.Tag("round:not-wellformed")
+			}
+			if !w.eager {
+				w.flushWrites()
+				op := fmt.Sprintf("upd %d", len(w.echoed))
+				for _, id := range w.echoed {
+					op += fmt.Sprintf(" %d", id)
+				}
+				h.Op("%s", op)
+				w.emitState(w.view())
+				h.Tag(fmt.Sprintf("round:late-echoes=%d", c16Min(len(w.echoed), 3)))
+			}
+			for _, id := range w.echoed {
+				if s := w.jobs[id]; s != nil {
+					for _, j := range after {
+						if j.id == id {
+							h.Tag(fmt.Sprintf("echo:phase=%d", j.phase))
+						}
+					}
+				}
 			}
 			adm, wait, failed := 0, 0, 0
 			for i, j := range after {
@@ -1212,6 +1361,69 @@ func c16ArbCase(h *vHarness, r *vRand, headroom bool, fx *c16Forced) {
 			}
 			h.Op("restart")
 			h.Tag("op:restart")
+			w.emitState(w.view())
+		case k == 20: // informer resync (or an unrelated metadata change): Update events with the objects as they are
+			var ids []int
+			all := r.Chance(2, 3)
+			for _, j := range w.view() {
+				if all || r.Bool() {
+					ids = append(ids, j.id)
+				}
+			}
+			op := fmt.Sprintf("upd %d", len(ids))
+			for _, id := range ids {
+				w.echo(id)
+				op += fmt.Sprintf(" %d", id)
+			}
+			h.Op("%s", op)
+			h.Tag("op:resync")
+			w.emitState(w.view())
+		case k == 21: // a job object is deleted (TTL, kubectl): API delete + Delete event through the handler
+			v := w.view()
+			if len(v) == 0 {
+				continue
+			}
+			j := v[r.Intn(len(v))]
+			obj := &v1alpha1.PodMigrationJob{}
+			if err := w.c.Get(ctx, types.NamespacedName{Name: c16JobName(j.id)}, obj); err != nil {
+				panic(err)
+			}
+			if err := w.c.Delete(ctx, obj); err != nil {
+				panic(err)
+			}
+			w.hd.Delete(ctx, event.DeleteEvent{Object: obj}, w.q)
+			delete(w.stale, j.id)
+			h.Op("deljob %d", j.id)
+			h.Tag(fmt.Sprintf("op:deljob,phase=%d,waiting=%d,arb=%d", j.phase, vB(j.waiting), vB(j.arb)))
+			w.emitState(w.view())
+		case k == 22: // an arbitrated open job moves one phase on: "" -> Pending -> Running, or ends (timeout / abort).  (A job that is
+			// still waiting is not touched: the arbitrator keeps the copy it got with the Create event and its annotation Update
+			// would then fail with a resourceVersion conflict — a liveness matter outside this property and outside the model.)
+			var cand []c16JobView
+			for _, j := range w.view() {
+				if j.phase <= 2 && !j.waiting {
+					cand = append(cand, j)
+				}
+			}
+			if len(cand) == 0 {
+				continue
+			}
+			j := cand[r.Intn(len(cand))]
+			np := j.phase + 1
+			if j.phase == 2 || r.Chance(1, 4) {
+				np = r.Range(3, 5)
+			}
+			obj := &v1alpha1.PodMigrationJob{}
+			if err := w.c.Get(ctx, types.NamespacedName{Name: c16JobName(j.id)}, obj); err != nil {
+				panic(err)
+			}
+			obj.Status.Phase = c16Phases[np]
+			if err := w.c.Status().Update(ctx, obj); err != nil {
+				panic(err)
+			}
+			w.hd.Update(ctx, event.UpdateEvent{ObjectNew: obj}, w.q)
+			h.Op("phase %d %d", j.id, np)
+			h.Tag(fmt.Sprintf("op:phase,from=%d,to=%d,waiting=%d", j.phase, np, vB(j.waiting)))
 			w.emitState(w.view())
 		default:
 			ids := podIDs()
